@@ -77,6 +77,10 @@ OBLIGATIONS.append(dict(name="codec_wrapper_corrupt_input_gzip", harness="harnes
     functions=["process_data (lib/xfrm/src/gzip.c)"],
     bound="one decompressing process_data call: input 0..4 bytes, output space 0..4 bytes, the library may report Z_DATA_ERROR / Z_NEED_DICT / Z_MEM_ERROR without progress at any call"))
 
+OBLIGATIONS.append(dict(name="glob_line_without_pack_directory", harness="harness/C07_glob.c", sources=["lib/util/src/split_line.c"], included_sources=["bin/gensquashfs/src/glob.c"],
+    incdirs=["bin/gensquashfs/src"], unwind=10, tiers=["quick", "thorough"], timeout=300, reach=["no_packdir", "packdir"],
+    functions=["glob_files (bin/gensquashfs/src/glob.c)"], bound="pack directory given or NULL, 0..1 path argument, no scan options"))
+
 ASSUMPTIONS = ["ctype classification = C locale (stubs/vp_ctype.c)", "path lookup replaced by a symbolic graph (superset of all archives / pack files)"]
 OUTSIDE = ["zlib/xz/zstd/bzip2 on corrupt streams", "glob.c against a real directory"]
 META = dict(
